@@ -47,6 +47,7 @@ From CG Require Import Model.EmitData.
 From CG Require Import Spec.InvocationsSub.
 From CG Require Import Model.Compiler.
 From CG Require Import Model.Diag.
+From CG Require Import Spec.Undercut.
 (* add new Require lines above this line *)
 Require Import ExtrOcamlBasic ExtrOcamlString.
 Extraction Language OCaml.
@@ -168,9 +169,11 @@ Separate Extraction
   EmitData.data_of_dfa
   InvocationsSub.spec_run_sw
   Compiler.compile_bash
+  Compiler.compile_data
   Compiler.mkoracles
   Diag.render
   Diag.error_messages
   Diag.warning_messages
+  Undercut.undercut
   (* add new roots above this line *)
   Prelude.pow2.
